@@ -4,6 +4,7 @@ let table : (string * (Model.sx -> Model.sx)) list = [
   "schema", Model.run_schema;
   "f64", Model.run_f64;
   "simple", Model.run_simple;
+  "simplefrag", Model.run_simple_frag;
   "helper", Model.run_helper;
   "h14", Model.run_h14;
   "post", Model.run_post;
